@@ -432,9 +432,24 @@ func runNonEmptyLinux(c Case, safe6 bool, res *Result) {
 		}
 		return out, errOut, true
 	}
+	// what drc prints is the new ruleset behind a line that says where the old one differs
+	rawRun := run
+	run = func(dev string, fs map[string]string) (string, string, bool) {
+		out, e, ok := rawRun(dev, fs)
+		var keep []string
+		for _, l := range strings.Split(out, "\n") {
+			if !strings.HasPrefix(l, "iptables differs at") {
+				keep = append(keep, l)
+			}
+		}
+		return strings.Join(keep, "\n"), e, ok
+	}
 	full, _, ok := run("", files)
 	if !ok || strings.TrimSpace(full) == "" {
 		return
+	}
+	if os.Getenv("VERIF_C18_DEBUG") == "ne" {
+		fmt.Fprintf(os.Stderr, "== linux full\n%s\n", full)
 	}
 	expectEmpty := func(scn, dev string, fs map[string]string) {
 		res.Count("ne:scenario:linux-" + scn)
